@@ -183,7 +183,11 @@ def parse_slots(s):
     return out
 
 def case_ops(case_text):
-    return [l.split('#')[0].split() for l in case_text.splitlines() if l.strip().startswith('op ')]
+    ops = [l.split('#')[0].split() for l in case_text.splitlines() if l.strip().startswith('op ')]
+    for o in ops:                      # `<name>:<item type>` -> name (the item type only selects the trait impl the runner uses)
+        if len(o) > 2 and ':' in o[2]:
+            o[2] = o[2].split(':')[0]
+    return ops
 
 BIG = 1 << 20
 
@@ -350,7 +354,7 @@ def shrink_case(root, pid, case_text, name, budget=150):
     i = len(ops) - 1
     while i >= 0 and trials[0] < budget:
         t = ops[i].split()
-        ctor = t[2] in ('new', 'from_str', 'from_static', 'with_capacity', 'from_char', 'from_bool', 'from_int', 'clone',
+        ctor = t[2].split(':')[0] in ('new', 'from_str', 'from_static', 'with_capacity', 'from_char', 'from_bool', 'from_int', 'clone',
                         'collect_chars', 'collect_strs', 'display')
         cand = ops[:i] + (['op plain new'] if ctor else []) + ops[i + 1:]
         if cand != ops and ok(cand):
@@ -726,6 +730,10 @@ def decide(root, pid, tier, seed, replay=None):
 
 def emit(root, res, st):
     pid = res.pid
+    # an obligation added after decide() (configuration builds, loom build, coqchk, ...) that failed, with nothing else
+    # reported: the property is no longer shown to hold
+    if not res.violations and any(not o[1] for o in res.obligations):
+        finish_without_search(root, pid, res, res.stats)
     known = load_known(root)
     out_lines = []
     viol = 0
